@@ -11,3 +11,7 @@ import PMH.Props.C07
 #print axioms PMH.C07.position_sees_exponential
 #print axioms PMH.SskLaw.scheme_expected_fraction
 #print axioms PMH.SskLaw.position_law_perm
+#print axioms PMH.C07.source_eq_model
+#print axioms PMH.C07.source_bounds_total
+#print axioms PMH.C07.source_bounds_ordered
+#print axioms PMH.C07.source_bounds_contain_J
